@@ -227,6 +227,23 @@ func (cx *Ctx) wrapperAt(ci ssa.CallInstruction) *storeWrap {
 }
 
 func (cx *Ctx) classifyCallRaw(ci ssa.CallInstruction) string {
+	k := cx.classifyCallRaw0(ci)
+	switch {
+	case k == "store.set" || k == "store.delete":
+		// the replaying loop of a write batch is not an access of its own (batch.go)
+		if ci.Common().IsInvoke() && cx.isReplayCall(ci.Common()) {
+			return ""
+		}
+	case k == "":
+		// … the queueing call is
+		if q := cx.queuerAt(ci); q != nil {
+			return q.kind
+		}
+	}
+	return k
+}
+
+func (cx *Ctx) classifyCallRaw0(ci ssa.CallInstruction) string {
 	c := ci.Common()
 	pkg, name := calleeName(c)
 	if c.IsInvoke() {
@@ -336,6 +353,15 @@ func storeArgs(ci ssa.CallInstruction) []ssa.Value {
 	if !c.IsInvoke() {
 		if pkg, name := calleeName(c); pkg == "cosmossdk.io/store/prefix" && strings.HasPrefix(name, "Store.") && len(c.Args) > 0 {
 			return c.Args[1:]
+		}
+		if theCtx != nil {
+			if q := theCtx.queuerAt(ci); q != nil && q.keyIdx < len(c.Args) {
+				out := []ssa.Value{c.Args[q.keyIdx]}
+				if q.valIdx >= 0 && q.valIdx < len(c.Args) {
+					out = append(out, c.Args[q.valIdx])
+				}
+				return out
+			}
 		}
 	}
 	return c.Args
